@@ -277,6 +277,9 @@ def run(ctx, res):
 
     for o in outs:
         st = o.state
+        if o.kind == "panic" and any(t in st.tags for t in ("opaque-switch", "opaque-assert", "unknown-callee", "unwrap-opaque")):
+            res.errors.append("imprecise trace in the MES gate (panic branch): %r" % (st.tags,))
+            continue
         care = st.pc
         if o.kind == "panic":
             res.ob(False)
@@ -284,6 +287,7 @@ def run(ctx, res):
             continue
         if any(t in st.tags for t in ("opaque-switch", "opaque-assert", "unknown-callee")):
             res.errors.append("imprecise trace in the MES gate: %r" % (st.tags,))
+            continue     # an imprecisely followed trace decides nothing
         if "prim-failed" in st.tags:
             # a failing bus access / invalid UTF-8 / send error: reported as an error, nothing written
             okk = (o.kind == "return" and isinstance(o.value, Enum) and o.value.variant == models.ERR) or o.kind == "stop"
